@@ -1,9 +1,13 @@
 """Per-property configuration of the driver: layers (test functions), budgets, evidence text."""
 
 
-def L(test, quick, thorough, shards=16, qenv=None, tenv=None, **kw):
+def L(test, quick, thorough, shards=16, qenv=None, tenv=None, qtimeout=None, ttimeout=None, **kw):
     d = {"test": test, "quick": {"checks": quick, "shards": 1, "env": qenv or {}},
          "thorough": {"checks": thorough, "shards": shards, "env": tenv or {}}}
+    if qtimeout:
+        d["quick"]["timeout"] = qtimeout
+    if ttimeout:
+        d["thorough"]["timeout"] = ttimeout
     d.update(kw)
     return d
 
@@ -321,8 +325,8 @@ CHECKS["C18"] = {
             "frames. TestVF_C18_Hostile: one command (deploy, rollout deploy, pause, stop, rollout set) issued in a generated reachable state "
             "with boundary argument values the CLI accepts (zero / negative durations and sizes, out-of-range percentages, hostile "
             "messages); oracle: no panic in any goroutine (the process survives), the command returns, requests still end. Non-trivial = at least two operations touched the same service. Distinct by plan hash.",
-    "layers": [L("TestVF_C18", 150, 2500, race_always=True, crash_is_violation=True, qenv={"GORACE": "halt_on_error=0"}, tenv={"GORACE": "halt_on_error=0"}),
-               L("TestVF_C18_Hostile", 150, 2000, crash_is_violation=True)],
+    "layers": [L("TestVF_C18", 150, 2500, race_always=True, crash_is_violation=True, qtimeout=150, ttimeout=1800, qenv={"GORACE": "halt_on_error=0"}, tenv={"GORACE": "halt_on_error=0"}),
+               L("TestVF_C18_Hostile", 150, 2000, crash_is_violation=True, qtimeout=240, ttimeout=1800)],
     "technique": "concurrency stress driven by property-based testing (rapid) under the Go race detector: generated operation lists on real goroutines, no gates",
     "level_text": "Bounded random exploration of overlapping operations; the race detector reports only pairs of accesses that were actually executed, so absence is never established.",
     "level_note": "Schedule is the Go scheduler's (not controlled, not replayable exactly); a replay re-runs the same operation lists up to 20 times.",
